@@ -1,5 +1,7 @@
 import CoxeterVerif.Lemmas.Solid
 import CoxeterVerif.Lemmas.ChainCheck
+import CoxeterVerif.Lemmas.SolidIntegral
+import CoxeterVerif.Lemmas.SolidHistory
 /-!
   # C01 — convex polyhedron volume, centroid, inertia are exact; order independent
 
@@ -14,6 +16,19 @@ import CoxeterVerif.Lemmas.ChainCheck
   exactness theorems directly in terms of what the driver evaluates.  Per-face area/centroid are
   exact and independent of the triangulation of the face (`cp_face_centroid_exact`,
   `cp_face_centroid_retriangulation`), the surface area is the sum of the face areas.
+
+  Deepening round 2:
+  * the tetrahedron closed forms of the spec are no longer trusted: `Lemmas/SolidIntegral.lean` proves from Mathlib's
+    interval integral that `Spec.tetVol/tetFirst/tetSecond` ARE the iterated integrals of `1`, `x_i`, `x_i x_j` over the
+    tetrahedron (affine image of the standard simplex, Jacobian determinant), and `cp_volume_integral`,
+    `cp_centroid_integral`, `cp_inertia_integral`, `cp_measures_integral_checked` state the exactness theorems with
+    `Σ_T ∫_T · dV` on the right-hand side;
+  * the STATE part of the property (`_consume_hull`, `_rescale`, `centroid.setter`): `cp_construct_exact`,
+    `cp_history_exact`, `cp_history_exact_checked` — after construction and after any sequence of size / centroid
+    setters the CACHED volume and centroid and the inertia tensor computed from the cached simplex normals are the
+    exact integrals over the CURRENT solid, the cached area is the area of the current surface;
+  * `cp_surface_area_eq_sum_faces_checked`: the partition hypothesis is a Boolean the driver evaluates
+    (`CP.groupsPartition`) on the implementation's own `_coplanar_simplices`; `combineSimplices_cover`.
 -/
 open Scalar
 set_option maxRecDepth 4000
@@ -155,6 +170,42 @@ theorem cp_centroid_order_independent {S S' : List (Tri ℝ)} (h : ChainEq S S')
   intro i hi
   rw [centroid_sum_get S i hi, centroid_sum_get S' i hi]
   exact h _ (cenPhi_oddCyclic i hi)
+
+theorem inn_sum_phi (S : List (Tri ℝ)) (c : V3 ℝ) (hnd : ∀ t ∈ S, V3.norm t.nvec ≠ 0) (s0 s1 : Nat) :
+    ((S.map fun t => (CP.simplexNormal t, CP.triArea (t.map (· - c)) * lit 2, t.map (· - c))).map
+        fun d => CP.innTerm d.1 d.2.1 d.2.2 s0 s1).sum
+      = sumOver (innPhi s0 s1) (S.map (Tri.map (· - c))) := by
+  simp only [sumOver, List.map_map, Function.comp_def]
+  congr 1
+  apply List.map_congr_left
+  intro t ht
+  exact innTerm_eq t c (hnd t ht) s0 s1
+
+theorem inm_sum_phi (S : List (Tri ℝ)) (c : V3 ℝ) (hnd : ∀ t ∈ S, V3.norm t.nvec ≠ 0) (s0 s1 : Nat) :
+    ((S.map fun t => (CP.simplexNormal t, CP.triArea (t.map (· - c)) * lit 2, t.map (· - c))).map
+        fun d => CP.inmTerm d.1 d.2.1 d.2.2 s0 s1).sum
+      = sumOver (inmPhi s0 s1) (S.map (Tri.map (· - c))) := by
+  simp only [sumOver, List.map_map, Function.comp_def]
+  congr 1
+  apply List.map_congr_left
+  intro t ht
+  exact inmTerm_eq t c (hnd t ht) s0 s1
+
+/-- **C01 order independence, inertia tensor.** -/
+theorem cp_inertia_order_independent {S S' : List (Tri ℝ)} (h : ChainEq S S')
+    (hnd : ∀ t ∈ S, V3.norm t.nvec ≠ 0) (hnd' : ∀ t ∈ S', V3.norm t.nvec ≠ 0) (c : V3 ℝ) (v : ℝ) :
+    CP.inertia S c v = CP.inertia S' c v := by
+  have hc := ChainEq.map (· - c) h
+  have n (s0 s1 : Nat) (h0 : s0 < s1) (h1 : s1 < 3) := hc _ (innPhi_oddCyclic s0 s1 h0 h1)
+  have m (s0 s1 : Nat) (h0 : s0 < s1) (h1 : s1 < 3) := hc _ (inmPhi_oddCyclic s0 s1 h0 h1)
+  unfold CP.inertia CP.inertiaCentred
+  simp only [Scalar.sum_real, inn_sum_phi S c hnd, inm_sum_phi S c hnd, inn_sum_phi S' c hnd', inm_sum_phi S' c hnd',
+    n 1 2 (by omega) (by omega), n 0 2 (by omega) (by omega), n 0 1 (by omega) (by omega),
+    m 0 1 (by omega) (by omega), m 0 2 (by omega) (by omega), m 1 2 (by omega) (by omega)]
+/-- the surface area does not depend on the order of the simplices -/
+theorem cp_surface_area_order_independent {S S' : List (Tri ℝ)} (h : S.Perm S') :
+    CP.surfaceArea S = CP.surfaceArea S' := by
+  unfold CP.surfaceArea; rw [Scalar.sum_real, Scalar.sum_real]; exact (h.map CP.triArea).sum_eq
 
 /-! ### non-vacuity: a concrete tetrahedron and a two-tetrahedron bipyramid meet the hypotheses -/
 
@@ -518,5 +569,218 @@ example : sqA.Perm [[sqA[1]], [sqA[0]]].flatten := by
   simp only [sqA, List.flatten_cons, List.flatten_nil, List.getElem_cons_zero, List.getElem_cons_succ,
     List.singleton_append, List.append_nil]
   exact List.Perm.swap _ _ _
+
+end
+
+/-! ### exactness against iterated integrals (no trusted closed form) -/
+noncomputable section
+open SolidInt
+
+/-- **C01 volume = ∫ 1 dV.** The signed-tetrahedron sum over the surface equals the sum over the tetrahedra of the
+iterated integral of `1` (`SolidInt.tetInt`: Jacobian determinant × `∫₀¹∫₀^{1−s}∫₀^{1−s−t} · du dt ds`). -/
+theorem cp_volume_integral {S : List (Tri ℝ)} {Ts : List (Tet ℝ)}
+    (h : ChainEq S (Ts.flatMap Tet.bdry)) : CP.signedVolume S = solidInt Ts (fun _ => 1) := by
+  rw [cp_volume_exact h, vol_eq_solidInt]
+
+/-- **C01 centroid = ∫ x dV / ∫ 1 dV.** -/
+theorem cp_centroid_integral {S : List (Tri ℝ)} {Ts : List (Tet ℝ)}
+    (h : ChainEq S (Ts.flatMap Tet.bdry)) (hpos : 0 < Spec.vol Ts) :
+    CP.centroid S (CP.volume S) = centroidInt Ts := by
+  rw [cp_centroid_exact h hpos, centroid_eq_centroidInt]
+
+/-- **C01 inertia tensor = ∫ (|x|² δ_ij − x_i x_j) dV**, with the model's own centroid and volume. -/
+theorem cp_inertia_integral {S : List (Tri ℝ)} {Ts : List (Tet ℝ)}
+    (h : ChainEq S (Ts.flatMap Tet.bdry)) (hnd : ∀ t ∈ S, V3.norm t.nvec ≠ 0) (hpos : 0 < Spec.vol Ts) :
+    CP.inertia S (CP.centroid S (CP.volume S)) (CP.volume S) = inertiaInt Ts := by
+  rw [cp_inertia_exact' h hnd hpos, inertia_eq_inertiaInt]
+
+/-- **Per-run tie against the integrals.** From the three facts the driver op `chain.check` decides exactly in ℚ on
+the run's own simplices and cone: reported volume, centroid and inertia tensor of the real surface are the integrals
+over the real tetrahedra. -/
+theorem cp_measures_integral_checked {S : List (Tri ℚ)} {Ts : List (Tet ℚ)}
+    (h : ChainCheck.chainCheck S (Ts.flatMap Tet.bdry) = true)
+    (hnd : ChainCheck.nondegCheck S = true) (hpos : 0 < Spec.vol Ts) :
+    CP.volume (S.map CCk.triOfRat) = solidInt (Ts.map CCk.tetOfRat) (fun _ => 1) ∧
+    CP.centroid (S.map CCk.triOfRat) (CP.volume (S.map CCk.triOfRat)) = centroidInt (Ts.map CCk.tetOfRat) ∧
+    CP.inertia (S.map CCk.triOfRat) (CP.centroid (S.map CCk.triOfRat) (CP.volume (S.map CCk.triOfRat)))
+        (CP.volume (S.map CCk.triOfRat)) = inertiaInt (Ts.map CCk.tetOfRat) := by
+  obtain ⟨h1, h2, h3⟩ := cp_measures_exact_checked h hnd hpos
+  exact ⟨by rw [h1, vol_eq_solidInt], by rw [h2, centroid_eq_centroidInt], by rw [h3, inertia_eq_inertiaInt]⟩
+
+/-- non-vacuity and a sanity value: the unit corner tetrahedron has `∫ 1 = 1/6`, `∫ x = 1/24`, `∫ x² = 1/60`,
+`∫ x y = 1/120` -/
+example : tetInt exT (fun _ => 1) = 1 / 6 ∧ tetInt exT (fun x => x.get 0) = 1 / 24 ∧
+    tetInt exT (fun x => x.get 0 * x.get 0) = 1 / 60 ∧ tetInt exT (fun x => x.get 0 * x.get 1) = 1 / 120 := by
+  refine ⟨?_, ?_, ?_, ?_⟩
+  · rw [tetInt_one]; unfold Spec.tetVol exT; unfold_model; norm_num
+  · rw [tetInt_coord]; unfold Spec.tetFirst Spec.tetVol Spec.tetSum exT; unfold_model; norm_num
+  · rw [tetInt_coord_mul]; unfold Spec.tetSecond Spec.tetVol Spec.tetSum exT; unfold_model; norm_num
+  · rw [tetInt_coord_mul]; unfold Spec.tetSecond Spec.tetVol Spec.tetSum exT; unfold_model; norm_num
+
+end
+
+/-! ### the state part: caches after construction and after any history of mutators -/
+noncomputable section
+open SolidInt CPH Mut
+
+/-- what the getters return when the caches describe the solid `Ts`: `volume`, `centroid` (stored values),
+`inertia_tensor` (current vertices, STORED simplex normals / centroid / volume) are the exact integrals over `Ts`,
+`surface_area` (stored) is the area of the current surface triangles. -/
+theorem cp_state_exact {s : CPState ℝ} {Ts : List (Tet ℝ)} (h : MeasInv s Ts) :
+    s.volume = solidInt Ts (fun _ => 1) ∧ s.centroid = centroidInt Ts ∧
+    inertiaTensor s = inertiaInt Ts ∧ s.area = CP.surfaceArea s.tris := by
+  refine ⟨by rw [h.vol, vol_eq_solidInt], by rw [h.cen, centroid_eq_centroidInt], ?_, h.area⟩
+  unfold inertiaTensor CP.inertiaWith
+  rw [h.seqN, inertiaCentredWith_fresh, h.cen, h.vol, ← inertia_eq_inertiaInt]
+  exact cp_inertia_exact h.chain h.nd h.pos.ne'
+
+/-- **C01 state, construction.** `_consume_hull` + `_sort_simplices`: when the oriented simplices bound a
+tetrahedralisation `Ts` of positive volume, are non-degenerate, and Qhull's `hull.area` is the area of its own
+triangulation (per-run contract, checked by the harness), the freshly built object reports the exact integrals.
+Qhull's `hull.volume` needs NO contract: `_calculate_signed_volume` overwrites it before anyone reads it. -/
+theorem cp_construct_exact (verts : List (V3 ℝ)) (simplices faceHead : List (Nat × Nat × Nat))
+    (eqN : List (V3 ℝ)) (eqD : List ℝ) (hullVolume hullArea : ℝ) (Ts : List (Tet ℝ))
+    (hch : ChainEq (trisOf verts simplices) (Ts.flatMap Tet.bdry)) (hpos : 0 < Spec.vol Ts)
+    (hnd : ∀ t ∈ trisOf verts simplices, V3.norm t.nvec ≠ 0) (hr : InRange verts.length simplices)
+    (harea : hullArea = CP.surfaceArea (trisOf verts simplices)) :
+    let s := construct verts simplices faceHead eqN eqD hullVolume hullArea
+    s.volume = solidInt Ts (fun _ => 1) ∧ s.centroid = centroidInt Ts ∧
+    inertiaTensor s = inertiaInt Ts ∧ s.area = CP.surfaceArea s.tris :=
+  cp_state_exact (construct_inv verts simplices faceHead eqN eqD hullVolume hullArea Ts hch hpos hnd hr harea)
+
+/-- **C01 state, any history.** After ANY sequence (of any length) of `volume` / `surface_area` / `*_radius`
+setters (all through `_rescale`, which updates `_volume`, `_area` incrementally by `k³`, `k²`) and `centroid`
+setters — raising ones included, they leave the object alone — the cached volume and centroid and the inertia
+tensor computed from the cached normals are the exact integrals over the CURRENT solid `runTets s ops Ts` (the
+initial tetrahedra moved by the same scalings / translations), and the cached area is the area of the current
+surface.  Only hypothesis on the history: the value a radius getter hands to its setter is positive. -/
+theorem cp_history_exact {s : CPState ℝ} {Ts : List (Tet ℝ)} (h : MeasInv s Ts) (ops : List (MOp ℝ))
+    (hv : ∀ op ∈ ops, op.Valid) :
+    let s' := run s ops
+    let Ts' := runTets s ops Ts
+    s'.volume = solidInt Ts' (fun _ => 1) ∧ s'.centroid = centroidInt Ts' ∧
+    inertiaTensor s' = inertiaInt Ts' ∧ s'.area = CP.surfaceArea s'.tris :=
+  cp_state_exact (run_inv ops h hv)
+
+/-- the same from the freshly constructed object, with the hypotheses in the form the driver decides them in ℚ
+(`chain.check` on the run's simplices `S` and the cone `Ts` over them) -/
+theorem cp_history_exact_checked {S : List (Tri ℚ)} {Tq : List (Tet ℚ)}
+    (hc : ChainCheck.chainCheck S (Tq.flatMap Tet.bdry) = true)
+    (hnd : ChainCheck.nondegCheck S = true) (hpos : 0 < Spec.vol Tq)
+    (verts : List (V3 ℝ)) (simplices faceHead : List (Nat × Nat × Nat)) (eqN : List (V3 ℝ)) (eqD : List ℝ)
+    (hullVolume hullArea : ℝ)
+    (hS : trisOf verts simplices = S.map CCk.triOfRat) (hr : InRange verts.length simplices)
+    (harea : hullArea = CP.surfaceArea (trisOf verts simplices))
+    (ops : List (MOp ℝ)) (hv : ∀ op ∈ ops, op.Valid) :
+    let s0 := construct verts simplices faceHead eqN eqD hullVolume hullArea
+    let s' := run s0 ops
+    let Ts' := runTets s0 ops (Tq.map CCk.tetOfRat)
+    s'.volume = solidInt Ts' (fun _ => 1) ∧ s'.centroid = centroidInt Ts' ∧
+    inertiaTensor s' = inertiaInt Ts' ∧ s'.area = CP.surfaceArea s'.tris := by
+  have hch := chainCheck_tets_rat_sound hc
+  have hp : 0 < Spec.vol (Tq.map CCk.tetOfRat) := by rw [CCk.vol_ofRat]; exact_mod_cast hpos
+  have hn := CCk.nondegCheck_rat_sound hnd
+  rw [← hS] at hch hn
+  exact cp_history_exact
+    (construct_inv verts simplices faceHead eqN eqD hullVolume hullArea _ hch hp hn hr harea) ops hv
+
+/-- the centroid setter does what it says, at any point of a history -/
+theorem cp_setCentroid_exact {s : CPState ℝ} {Ts : List (Tet ℝ)} (h : MeasInv s Ts) (c : V3 ℝ) :
+    (s.setCentroid c).centroid = c ∧ centroidInt (shiftTets (c - s.centroid) Ts) = c := by
+  have h1 := setCentroid_centroid h c
+  exact ⟨h1, by rw [← centroid_eq_centroidInt, ← (setCentroid_inv h c).cen, h1]⟩
+
+/-! non-vacuity: the unit corner tetrahedron, built and then resized / moved -/
+
+def exVerts01 : List (V3 ℝ) := [⟨0,0,0⟩, ⟨1,0,0⟩, ⟨0,1,0⟩, ⟨0,0,1⟩]
+def exSimp01 : List (Nat × Nat × Nat) := [(0,2,1), (0,1,3), (1,2,3), (0,3,2)]
+
+theorem exTris01 : trisOf exVerts01 exSimp01 = exT.bdry := by
+  simp [trisOf, exVerts01, exSimp01, vget, Tet.bdry, exT]
+
+theorem exInv01 : MeasInv (construct exVerts01 exSimp01 exSimp01 [] [] 0 (CP.surfaceArea exT.bdry)) [exT] := by
+  apply construct_inv
+  · rw [exTris01]; simpa using ChainEq.refl _
+  · unfold Spec.vol Spec.tetVol exT; unfold_model; norm_num
+  · rw [exTris01]
+    intro t ht
+    have hn : ∀ x y z : ℝ, x * x + y * y + z * z ≠ 0 → V3.norm (⟨x, y, z⟩ : V3 ℝ) ≠ 0 := by
+      intro x y z h
+      unfold V3.norm V3.normSq V3.dot
+      simp only [Scalar.sqrt_real]
+      intro h0
+      rw [Real.sqrt_eq_zero'] at h0
+      have : 0 ≤ x * x + y * y + z * z := by nlinarith [mul_self_nonneg x, mul_self_nonneg y, mul_self_nonneg z]
+      exact h (le_antisymm h0 this)
+    simp only [Tet.bdry, exT, List.mem_cons, List.not_mem_nil, or_false] at ht
+    rcases ht with rfl | rfl | rfl | rfl <;> unfold Tri.nvec V3.cross <;>
+      simp only [V3.sub_x, V3.sub_y, V3.sub_z] <;> apply hn <;> norm_num
+  · intro s hs
+    simp [exSimp01] at hs
+    rcases hs with rfl | rfl | rfl | rfl <;> simp [exVerts01]
+  · rw [exTris01]
+
+def exOps01 : List (MOp ℝ) := [.setVolume 8, .setCentroid ⟨5, 5, 5⟩, .setSurfaceArea 1, .setVolume (-1)]
+
+example :
+    (run (construct exVerts01 exSimp01 exSimp01 [] [] 0 (CP.surfaceArea exT.bdry)) exOps01).volume
+      = solidInt (runTets (construct exVerts01 exSimp01 exSimp01 [] [] 0 (CP.surfaceArea exT.bdry)) exOps01 [exT])
+          (fun _ => 1) :=
+  (cp_history_exact exInv01 exOps01 (by
+    intro op hop
+    simp only [exOps01, List.mem_cons, List.not_mem_nil, or_false] at hop
+    rcases hop with rfl | rfl | rfl | rfl <;> trivial)).1
+
+end
+
+/-! ### the face groups: `_combine_simplices` and the partition the per-face measures rely on -/
+noncomputable section
+
+/-- soundness of the partition check the driver runs on the implementation's `_coplanar_simplices` -/
+theorem groupsPartition_sound {n : Nat} {groups : List (List Nat)} (h : CP.groupsPartition n groups = true) :
+    (List.range n).Perm groups.flatten := List.isPerm_iff.mp h
+
+theorem faceSimplices_range (S : List (Tri ℝ)) : CP.faceSimplices S (List.range S.length) = S := by
+  unfold CP.faceSimplices
+  apply List.ext_getElem
+  · simp
+  · intro i h1 h2
+    simp only [List.length_map, List.length_range] at h1
+    simp [List.getD, h1]
+
+/-- **C01 surface area = Σ face areas, checked form**: the hypothesis is the Boolean `CP.groupsPartition` (the face
+groups partition the simplex indices), evaluated per run on `_coplanar_simplices`. -/
+theorem cp_surface_area_eq_sum_faces_checked (S : List (Tri ℝ)) (groups : List (List Nat))
+    (h : CP.groupsPartition S.length groups = true) :
+    CP.surfaceArea S = (groups.map fun g => CP.faceArea (CP.faceSimplices S g)).sum := by
+  have hp := (groupsPartition_sound h).map fun i => S.getD i ⟨V3.zero, V3.zero, V3.zero⟩
+  have h1 := faceSimplices_range S
+  unfold CP.faceSimplices at h1
+  rw [h1, List.map_flatten] at hp
+  have hp' : S.Perm (groups.map (CP.faceSimplices S)).flatten := hp
+  rw [cp_surface_area_eq_sum_faces S (groups.map (CP.faceSimplices S)) hp', List.map_map]; rfl
+
+/-- every simplex lands in a face: with a positive tolerance each index belongs to (at least) one group of
+`_combine_simplices`, whatever Qhull's equations are -/
+theorem combineSimplices_cover {tol : ℝ} (htol : 0 < tol) (eqs : List (V3 ℝ × ℝ)) (i : Nat) (hi : i < eqs.length) :
+    ∃ g ∈ CP.combineSimplices tol eqs, i ∈ g := by
+  have hclose : ∀ e : V3 ℝ × ℝ, CP.eqClose tol e e = true := by
+    intro e; simp [CP.eqClose, htol]
+  have hrow : i ∈ ((eqs.zipIdx.filter fun p => CP.eqClose tol eqs[i] p.1).map (·.2)) := by
+    rw [List.mem_map]
+    refine ⟨(eqs[i], i), ?_, rfl⟩
+    rw [List.mem_filter]
+    refine ⟨?_, hclose _⟩
+    rw [List.mem_zipIdx_iff_getElem?]
+    simp [hi]
+  refine ⟨_, ?_, hrow⟩
+  unfold CP.combineSimplices
+  rw [List.mem_mergeSort, List.mem_eraseDups]
+  unfold CP.coplanarRows
+  rw [List.mem_map]
+  exact ⟨eqs[i], List.getElem_mem hi, rfl⟩
+
+example : CP.groupsPartition 4 [[0, 2], [1], [3]] = true := by decide
+example : CP.groupsPartition 4 [[0, 2], [2, 3], [1]] = false := by decide
 
 end
